@@ -616,3 +616,14 @@ _run_z01 = run
 def run(ctx, rep, tier):
     _run_z01(ctx, rep, tier)
     _accepting_states_form_a_set(ctx, rep, tier)
+
+
+_run_r6 = run
+
+
+def run(ctx, rep, tier):
+    _run_r6(ctx, rep, tier)
+    from .shared import delegate_fn
+    from . import c02
+    delegate_fn(ctx, rep, tier, c02._run_d05, ("C02.j",), "C01.aa", "an out-of-space condition transfers control to the handler AT the offending byte: an overflowing append on a non-consuming step "
+                "does not advance the input, one on a consuming transition hands the next byte over exactly once", prop="C02")
